@@ -4,3 +4,5 @@ import MatidGen.Centring
 import MatidGen.WyckoffRule
 import MatidGen.DimRule
 import MatidGen.ClusterRule
+import MatidGen.AnalyzerRule
+import MatidGen.SbcRule
